@@ -750,7 +750,15 @@ impl Formatter {
         </div>", block_id, block_class, style_attr, namespace_str, src, output_node)
       }
     } else {
-      format!("```mech{}\n{}\n```", src, format!(":{}", disabled_tag))
+      // info string first (`:disabled` or `:<namespace>`), then the code, then the closing fence
+      let tag = if block.config.disabled {
+        format!(":{}", disabled_tag)
+      } else if !namespace_str.is_empty() {
+        format!(":{}", namespace_str)
+      } else {
+        "".to_string()
+      };
+      format!("```mech{}\n{}```\n", tag, src)
     }
   }
 
